@@ -534,7 +534,14 @@ func (w *World) ForgedCert(kind string, round int, value string) *specqbft.Signe
 	case "valueNotRoot": // a genuine-looking quorum over root(value) carrying different full data
 		sm := w.anyQuorumCert(round, value)
 		if sm == nil {
-			sm = multi([]OpID{b0}, []*bls.SecretKey{sk})
+			// no genuine quorum exists yet: honest ids with the adversary's aggregate (quorum-sized, so it is a
+			// decided message; a SINGLE-signer message here would be an ordinary commit of the adversary, which may
+			// legitimately enter the commit container - that was a false alarm of the first thorough run)
+			ids, sks := []OpID{}, []*bls.SecretKey{}
+			for k := 1; len(ids) < q; k++ {
+				ids, sks = append(ids, OpID(k)), append(sks, sk)
+			}
+			sm = multi(ids, sks)
 		}
 		sm.FullData = Value(value + "-other")
 		return sm
